@@ -32,7 +32,7 @@ def scripts(rng, tier, n=None):
             L.append(pkt_op("protect_rtcp", 1, pkt, cap=len(pkt) + p.trailer(False), mode=rng.choice([0, 1, 2]), mki_index=mi)); a = len(L)
             L.append(f"peek 1 0 {H(ssrc)}")
             L.append(pkt_op("unprotect_rtcp", 2, f"@{a:x}", cap=len(pkt) + p.trailer(False), mode=rng.choice([0, 1, 2])))
-            L.append(f"# RT {p.trailer(False):x} {p.rtcp[4]:x} {p.mki_size if p.use_mki else 0:x} {1 if p.rtcp[5] & 1 else 0}")
+            L.append(f"# RT {p.trailer(False):x} {p.rtcp[4]:x} {p.mki_size if p.use_mki else 0:x} {1 if p.rtcp[5] & 1 else 0} {1 if p.rtcp[0] in (GCM128, GCM256) else 0}")
         L += ["dealloc 1", "dealloc 2"]
         out.append((f"rtcp-rt-{k}", "\n".join(L) + "\n"))
     return out
@@ -58,6 +58,8 @@ def monitor(script, c):
             # trailer: E flag and index at len(p) .. len(p)+4 are what the sender's counter says
             wire = bytes.fromhex(pr[4])
             n = len(orig) // 2
+            if len(t) > 6 and t[6] == "1":
+                n += int(t[3], 16)          # RFC 7714: the GCM tag precedes the SRTCP trailer
             tr = int.from_bytes(wire[n:n + 4], "big")
             conf = t[5] == "1"
             idx = int(pk[6], 16) if len(pk) > 6 else None
